@@ -37,7 +37,7 @@ def app_jobs(ids, variant="n"):
     js = []
     for k in ids:
         name, src = APPS[k]
-        js.append(dict(harness="c20_%s" % name, variant=variant, weight=1,
+        js.append(dict(harness="c20_%s" % name, variant=variant, weight=2 if name == "boruvka" else 1,
                        build=dict(sources=[("/verif/harness/c20_apps.cpp", ["-DAPP=%d" % k]), ("/repo/" + src, ["-Dmain=app_main"]),
                                            "/repo/lonestar/liblonestar/src/BoilerPlate.cpp"],
                                   extra_inc=["/repo/lonestar/liblonestar/include", "/repo/" + src.rsplit("/", 1)[0]],
@@ -146,7 +146,7 @@ PROPS = {
                    "non-multiples of the block size, all-equal/sorted/reversed/few-keys, all-true/all-false predicates) on 1-16 threads; oracle: the std:: counterpart, partition-point validity, permutation checks. "
                    "The simulator explores which thread exhausts which side first in partition's block claiming and everything for_each/do_all do underneath.",
         level_note="Sampling over seeds; element accesses are plain (no decision points), so > 1024 elements stay cheap.",
-        **tiers(6000, 120, 150000, 1500)),
+        **tiers(24000, 150, 600000, 1800)),
     "C09": dict(
         jobs=[dict(harness="c09_alloc", variant="a", weight=3), dict(harness="c09_alloc", variant="n", weight=2),
               dict(harness="c01_foreach_0", variant="a", weight=1, params={"entry": 14},
@@ -200,7 +200,7 @@ PROPS = {
                    "1-16 threads and synthetic topologies, on generated small graphs (disconnected, hubs, zero/large weights, parallel edges and self loops where the application accepts them) written by the harness writer. "
                    "Oracle: the printed summary compared with independent references in the driver (Dijkstra/BFS, union-find, peeling, brute-force triangles, Kruskal, enumeration of maximal independent sets).",
         level_note="Sampling over seeds and schedules; shared-memory applications only at this commit (distributed ones are covered when the multi-host world is registered). The applications' own verify steps stay on but are not the oracle.",
-        **tiers(1500, 170, 40000, 2400, run_timeout_s=120)),
+        **tiers(16000, 170, 400000, 2400, run_timeout_s=120)),
     "C17": dict(
         jobs=[dict(harness="c17_network", variant="a", weight=2, build=dist_build()), dict(harness="c17_network", variant="n", weight=1, build=dist_build())],
         components=dict(real=REAL_SHMEM + ["libdist: NetworkInterfaceBuffered (aggregation, splitting, communication thread), NetworkIOMPI, HostFence, HostBarrier, Serialize.h"],
